@@ -10,6 +10,7 @@ import (
 	"context"
 	"crypto"
 	"fmt"
+	"io"
 	"reflect"
 	"sync/atomic"
 	"time"
@@ -19,6 +20,7 @@ import (
 	"github.com/fido-device-onboard/go-fdo/cbor"
 	"github.com/fido-device-onboard/go-fdo/kex"
 	"github.com/fido-device-onboard/go-fdo/protocol"
+	"github.com/fido-device-onboard/go-fdo/serviceinfo"
 
 	"verifharness/world"
 )
@@ -59,12 +61,34 @@ type Event struct {
 
 // Config selects the crypto configuration of a history.
 type Config struct {
+	Mods   int    `json:"mods,omitempty"` // number of owner service-info modules (each with a device counterpart)
 	Kind   string `json:"kind"`
 	Enc    int    `json:"enc"`
 	Kex    string `json:"kex,omitempty"`
 	Cipher int    `json:"cipher,omitempty"`
 	RvInfo bool   `json:"rvinfo,omitempty"` // non-empty rendezvous info in credentials
 }
+
+type lifeOwnerMod struct{}
+
+func (lifeOwnerMod) HandleInfo(_ context.Context, _ string, body io.Reader) error {
+	_, _ = io.Copy(io.Discard, body)
+	return nil
+}
+func (lifeOwnerMod) ProduceInfo(_ context.Context, p *serviceinfo.Producer) (bool, bool, error) {
+	_ = p.WriteChunk("active", []byte{0xf5})
+	_ = p.WriteChunk("ping", []byte{0x01})
+	return false, true, nil
+}
+
+type lifeDevMod struct{}
+
+func (lifeDevMod) Transition(bool) error { return nil }
+func (lifeDevMod) Receive(_ context.Context, _ string, body io.Reader, _ func(string) io.Writer, _ func()) error {
+	_, _ = io.Copy(io.Discard, body)
+	return nil
+}
+func (lifeDevMod) Yield(context.Context, func(string) io.Writer, func()) error { return nil }
 
 // Exec runs one history.
 type Exec struct {
@@ -80,6 +104,13 @@ type Exec struct {
 // New creates the world (separate manufacturer / owner databases).
 func New(cfg Config, run int) *Exec {
 	opt := world.Options{Kind: world.KeyKind(cfg.Kind), Enc: protocol.KeyEncoding(cfg.Enc), Separate: true}
+	opt.OwnerModules = func(context.Context, string, serviceinfo.Devmod, []string) []world.NamedOwnerModule {
+		var ms []world.NamedOwnerModule
+		for i := 1; i <= cfg.Mods; i++ {
+			ms = append(ms, world.NamedOwnerModule{Name: fmt.Sprintf("m%d", i), Mod: lifeOwnerMod{}})
+		}
+		return ms
+	}
 	if cfg.RvInfo {
 		opt.RvInfo = [][]protocol.RvInstruction{{{Variable: protocol.RVDns, Value: mustCBOR("rv.verif")}, {Variable: protocol.RVDevPort, Value: mustCBOR(uint16(8041))}}}
 	}
@@ -182,7 +213,11 @@ func (e *Exec) Do(a Action) Event {
 		case "to2":
 			e.W.Opt.Reuse = a.Reuse
 			before := e.Dev.Cred
-			cred, err := e.W.RunTO2(ctx, e.Dev, nil, world.TO2Opts{Kex: kex.Suite(e.Cfg.Kex), Cipher: kex.CipherSuiteID(e.Cfg.Cipher)}, cutHook(a.Cut))
+			mods := map[string]serviceinfo.DeviceModule{}
+			for i := 1; i <= e.Cfg.Mods; i++ {
+				mods[fmt.Sprintf("m%d", i)] = lifeDevMod{}
+			}
+			cred, err := e.W.RunTO2(ctx, e.Dev, nil, world.TO2Opts{Kex: kex.Suite(e.Cfg.Kex), Cipher: kex.CipherSuiteID(e.Cfg.Cipher), Modules: mods}, cutHook(a.Cut))
 			ev.OK = err == nil
 			if err != nil {
 				ev.Err = err.Error()
